@@ -173,11 +173,22 @@ if self._program is not None:
     self._machine.run(self._program)
 """)
 JOB_REQUEST_STOP = norm("self._machine.stop()")
-AGENT_EXECUTE = norm("""
+AGENT_EXECUTE_PINNED = norm("""
 self._thread = threading.Thread(target=self._execute_and_call)
 self._thread.start()
 return self
 """)
+# repaired (D44): whoever starts a run re-arms the job before the job thread exists
+AGENT_EXECUTE_PREPARES = norm("""
+prepare = getattr(self._job, 'prepare', None)
+if prepare is not None:
+    prepare()
+self._thread = threading.Thread(target=self._execute_and_call)
+self._thread.start()
+return self
+""")
+JOB_PREPARE = norm("self._machine.prepare()")
+MACHINE_PREPARE = norm("self._keep_running = True")
 AGENT_EXECUTE_AND_CALL = norm("""
 try:
     self._job.execute()
@@ -185,12 +196,30 @@ finally:
     self._callback(self)
 """)
 AGENT_REQUEST_STOP = norm("self._job.request_stop()")
-JC_CLEAR_QUEUE = norm("self._queue.clear()")
-JC_STOP_CURRENT = norm("""
+JC_CLEAR_QUEUE_PINNED = norm("self._queue.clear()")
+JC_CLEAR_QUEUE_LOCKED = norm("""
+if self._acquire_lock():
+    try:
+        self._queue.clear()
+    finally:
+        self._release_lock()
+""")
+JC_STOP_CURRENT_PINNED = norm("""
 if self._active_agent is not None and self._active_agent.is_running():
     if self._acquire_lock():
         try:
             self._active_agent.request_stop()
+        finally:
+            self._release_lock()
+        return True
+return False
+""")
+JC_STOP_CURRENT_LOCAL = norm("""
+agent = self._active_agent
+if agent is not None and agent.is_running():
+    if self._acquire_lock():
+        try:
+            agent.request_stop()
         finally:
             self._release_lock()
         return True
@@ -299,15 +328,22 @@ def gen_clock(repo):
                     for t in tg:
                         if isinstance(t, ast.Attribute) and t.attr == '_keep_running':
                             writers.add(fn.name)
-    shape['run_flag_writers_known'] = writers <= {'__init__', 'reset', 'run', 'stop'}
+    shape['run_flag_writers_known'] = writers <= {'__init__', 'reset', 'run', 'stop', 'prepare'}
 
     shape['job_execute_std'] = text(stree, 'ScriptJob', 'execute') == JOB_EXECUTE
     shape['job_request_stop_std'] = text(stree, 'ScriptJob', 'request_stop') == JOB_REQUEST_STOP
-    shape['agent_std'] = (text(jtree, 'Agent', 'execute') == AGENT_EXECUTE
-                          and text(jtree, 'Agent', '_execute_and_call') == AGENT_EXECUTE_AND_CALL
-                          and text(jtree, 'Agent', 'request_stop') == AGENT_REQUEST_STOP)
-    shape['jc_clear_queue_std'] = text(jtree, 'JobControl', 'clear_queue') == JC_CLEAR_QUEUE
-    shape['jc_stop_current_std'] = text(jtree, 'JobControl', 'stop_current') == JC_STOP_CURRENT
+    agent_rest = (text(jtree, 'Agent', '_execute_and_call') == AGENT_EXECUTE_AND_CALL
+                  and text(jtree, 'Agent', 'request_stop') == AGENT_REQUEST_STOP)
+    has_prepare = method(mtree, 'Machine', 'prepare') is not None
+    shape['agent_no_prepare'] = (agent_rest and text(jtree, 'Agent', 'execute') == AGENT_EXECUTE_PINNED
+                                 and not has_prepare)                                          # pinned (D44)
+    shape['agent_prepares'] = (agent_rest and text(jtree, 'Agent', 'execute') == AGENT_EXECUTE_PREPARES
+                               and text(stree, 'ScriptJob', 'prepare') == JOB_PREPARE
+                               and has_prepare and m('prepare') == MACHINE_PREPARE)             # repaired
+    shape['jc_clear_queue_unlocked'] = text(jtree, 'JobControl', 'clear_queue') == JC_CLEAR_QUEUE_PINNED    # pinned (D46)
+    shape['jc_clear_queue_locked'] = text(jtree, 'JobControl', 'clear_queue') == JC_CLEAR_QUEUE_LOCKED      # repaired
+    shape['jc_stop_current_rereads'] = text(jtree, 'JobControl', 'stop_current') == JC_STOP_CURRENT_PINNED  # pinned (D45)
+    shape['jc_stop_current_local'] = text(jtree, 'JobControl', 'stop_current') == JC_STOP_CURRENT_LOCAL     # repaired
     shape['jc_stop_job_std'] = text(jtree, 'JobControl', 'stop_job') == JC_STOP_JOB
     shape['jc_stop_background_std'] = text(jtree, 'JobControl', 'stop_background') == JC_STOP_BACKGROUND
     shape['jc_on_execution_done_std'] = text(jtree, 'JobControl', '_on_execution_done') == JC_ON_EXECUTION_DONE
